@@ -1,6 +1,7 @@
 /-
   C07 — Tainted nodes are reused before new capacity is bought.
 -/
+import EscProofs.P.GenLoopsModel
 import EscProofs.P.GenLoops
 import EscProofs.P.GenScaleUp
 import EscProofs.Lemmas.Run
